@@ -463,6 +463,9 @@ def reject_key(o, clause, row, forms, names):
     if (hi or deco or optevex) and not any(f["pk"] == "E" and f["name"] == o["n"] for f in fit):
         what = "vector-register-16..31" if hi else ("mask-or-evex-decoration" if deco else "evex-option")
         return f"class:{what}-accepted-for-operand-signature-without-evex-row"
+    if clause == "length" and any(x["t"] == "m" and x["dv"] == "0" and ((x["bt"] == "gpw" and x["b"] == 5 and not x["it"]) or (x["it"] == "gpw" and x["i"] == 5 and not x["bt"]))
+                                  for x in o["ops"]):
+        return "class:16-bit-addressing-[bp]-without-displacement"
     if a16 and emitted_evex(o) and clause == "mem-disp":
         return "class:evex-disp8-not-compressed-with-16-bit-addressing"
     def coarse(x):
